@@ -63,10 +63,12 @@ def run_config(chk, tier, cfgname):
             continue
         t = prog.ty(im["self"])
         d = t.get("def") if t.get("k") == "adt" else ("dyn" if t.get("k") == "dyn" else None)
-        if d in ("gc::Gc", "gc_weak::GcWeak", "zst_cache::ZstCache", "dyn") or (d or "").startswith("dynamic_roots::"):
+        # (the lock types are the interior-mutability cells every mutable pointer field lives in: an incomplete trace of
+        # theirs hides strongly reachable objects from the marker just as one of Gc's own would - seed C01-f)
+        if d in ("gc::Gc", "gc_weak::GcWeak", "zst_cache::ZstCache", "dyn") or (d or "").startswith(("dynamic_roots::", "lock::")):
             own += 1
             c16.check_impl(chk, prog, im, cfgname)
-    chk.floor("collector-own-collect-impls", own, 3)
+    chk.floor("collector-own-collect-impls", own, 6)
     allocation_state(chk, prog, cfgname)
     initial_collector_state(chk, prog, T, cfgname)
     # the event "value traced" of the mark_one table is GcPtr::trace_value: it must forward to the vtable's
